@@ -476,8 +476,11 @@ def check(case, ctx):
         if ctx is not None:
             ctx.count("subprocess_runs")
     else:
-        res = monitors.run_main(argv)
+        status_on = (len(bad) + case["position"]) % 2 == 0      # default user path: status on, real file descriptors
+        res = monitors.run_main(argv[1:] if status_on else argv, real_files=status_on)
         rc, out, err = res.rc, res.out, res.err
+        if ctx is not None and status_on:
+            ctx.count("cli_with_status_output_and_real_fds")
         exc = None if res.exc is None else f"{type(res.exc).__name__}: {str(res.exc)[:120]}"
         exc_type = None if res.exc is None else type(res.exc).__name__
     where = "first" if case["position"] == 0 else "second"
